@@ -50,7 +50,7 @@ CFG = {
     "harness_pkg": "hx-c10",
     "harness_bin": "c10",
     "n": {"quick": 12000, "thorough": 400000},
-    "trivial_tags": ["converted-handle", "plain", "no-effect", "effect-d", "settled", "fresh-completion", "multi-source", "init-value", "resource", "once-resource",
+    "trivial_tags": ["converted-handle", "synchronous-observer", "plain", "no-effect", "effect-d", "settled", "fresh-completion", "multi-source", "init-value", "resource", "once-resource",
                      "local-resource", "memo-source", "dynamic-reads"],
     "rule": "the real handles on the harness-controlled executor, fetcher futures = oneshot receivers resolved by `complete`: reactive_graph "
             "ArcAsyncDerived/AsyncDerived (sync and unsync constructors, with/without initial value; 1-2 source signals read directly or through one "
@@ -79,7 +79,14 @@ CFG = {
             "over {set, complete, attach v/b/r, release, poll 0/1} after 3 preambles in which a reader already holds the first value, each ending with "
             "`release` and a settle suffix; HANDLE CONVERSIONS (cfg kind `k~chain`: `a` = .into() the Arc type, `r` = .into() the arena type, `c` = clone; "
             "17 chains over Resource/ArcResource, LocalResource/ArcLocalResource, AsyncDerived/ArcAsyncDerived — OnceResource has no From impls): every "
-            "sequence of length <= 3 over {set, refetch, complete, attach, bread / mset, poll, idle} through the converted handle, also after a first load; then "
+            "sequence of length <= 3 over {set, refetch, complete, attach, bread / mset, poll, idle} through the converted handle, also after a first load; A PAUSED OWNER (`pause` / `resume` = Owner::pause/resume "
+            "on the derived's owner, after its first run): every sequence of length 4 over {set, refetch, complete, pause, resume, poll 0, idle, attach} after "
+            "a first load on 5 flavours, each ending with resume, settle, one more write with the owner running, settle (then the value must be the "
+            "latest; while a notification was consumed under pause and no write followed with the owner running a stale value is allowed: \"until "
+            "notified again\"); DEPENDENTS THAT PEEK (effect kinds `dp`/`dq`: `by_ref()` / `.await` polled once with now_or_never() and dropped) during a "
+            "first load: every sequence of length <= 4 over {complete, poll 0/1/2, idle, attach} on 7 flavours x 2: the dependent must run again when the "
+            "load has finished; a SYNCHRONOUS OBSERVER (ImmediateEffect reading `.get()`) on every once-resource case: what it saw at its last run (inside "
+            "the completion's notification) must be the loaded value (harness-side oracle clause sync-observer-stale); then "
             "seeded random histories over all flavours (<= 30 ops, <= 4 awaiters); each followed by a settle suffix. Observable after every op: ready "
             "list (task kinds d/e/a/r/t), value and loading flag as the public API shows them, fetches started, inputs captured by the last fetch, what "
             "every awaiter resumed with, every run of the subscriber effect, the boundary's task-list length. Oracle (harness bookkeeping only): value "
@@ -103,6 +110,12 @@ CFG = {
                  "leptos_server ArcResource::new_with_options (source memo (refetch, source()), untracked fetcher, refetch)", "ArcOnceResource (one future; "
                  "Suspense handle only while there is no value)", "ArcLocalResource/LocalResource (Executor::tick() before every fetch; refetch = tracked signal)"],
     "assumptions": [
+        "Owner::pause/resume is modelled at the driver level (lean/Driver/C10.lean `pollDPaused`: the task consumes its notification, keeps its Dirty state, "
+        "runs nothing), not in Model/Async.step: the theorems are about histories without `pause` (a paused history leaves the invariant: Dirty with the "
+        "channel flag cleared); driven after the first run, without effect, manual writes, guards, once/local resources",
+        "peeking dependents (`dp`/`dq`) are driven on first loads only (no initial value, no set/refetch/mset: during a reload a peek reads None where get() "
+        "reads the old value) and map to the model's effect kind `d`; the synchronous observer (ImmediateEffect) is implementation-side only (separate log, "
+        "oracle clause, once-resources only: on AsyncDerived-based handles a synchronous reader inside notify_subs was not explored)",
         "guards on the value are driven on plain configurations only: no subscriber effect, a fetcher that reads nothing after its await, no manual "
         "write in the same case, not on once / local resources (no by_ref()); while a guard is held, or the derived's task waits for the write lock, "
         "the harness makes no synchronous access (val shows `~`; `bread`/`get`/`hold` are refused): such an access blocks the thread for good "
